@@ -400,7 +400,16 @@ class QueryMixin:
                     envs = [e for e in envs if truth(having_fn(e))]
             if order_fns:
                 envs = _multisort(envs, order_fns)
-            rows = [[f(e) for f in out_fns] for e in envs]
+            uvt = rt.sess.uv_trace if env.outer is None else None
+            if uvt is not None:
+                # INSERT ... SELECT with @v := ... in the select list and @v in ON DUPLICATE KEY UPDATE: remember
+                # the user variables as of each produced row (row-by-row semantics, DESIGN.md 4.4)
+                rows = []
+                for e in envs:
+                    rows.append([f(e) for f in out_fns])
+                    uvt.append(dict(rt.sess.uvars))
+            else:
+                rows = [[f(e) for f in out_fns] for e in envs]
             if want_src:
                 if distinct or grouped:
                     raise UnsupportedSQL('source rows of a DISTINCT/grouped select')
